@@ -1,6 +1,11 @@
 import CJ.Drv.Loop
-/-! Driver for C13 (stub until the models are written). -/
+import CJ.Drv.RW
+/-! Driver for C13: the RWMutex model over the regenerated lock programs. -/
 open CJ.Drv
 
 def main : IO Unit := runDriver fun
+  | "rw" :: args => RW.handle "rw" args
+  | "rwfind" :: args => RW.handle "rwfind" args
+  | "rwsched" :: args => RW.handle "rwsched" args
+  | "rwevents" :: args => RW.handle "rwevents" args
   | _ => none
